@@ -247,9 +247,30 @@ func mergeStringMaps(src, dest map[string]any) {
 			}
 			continue
 		}
-		// Otherwise, set the value directly
-		dest[srcKey] = srcValue
+		// Otherwise, set the value directly. Nested maps and lists are copied
+		// so that the levels of the config never share (and later write into)
+		// the same underlying map.
+		dest[srcKey] = copyMapValue(srcValue)
 	}
+}
+
+// copyMapValue returns a deep copy of a value found in a map[string]any.
+func copyMapValue(value any) any {
+	switch typed := value.(type) {
+	case map[string]any:
+		copied := make(map[string]any, len(typed))
+		for key, elem := range typed {
+			copied[key] = copyMapValue(elem)
+		}
+		return copied
+	case []any:
+		copied := make([]any, len(typed))
+		for idx, elem := range typed {
+			copied[idx] = copyMapValue(elem)
+		}
+		return copied
+	}
+	return value
 }
 
 // mergeConfigs merges the values from c1 into c2.
